@@ -14,6 +14,7 @@ import (
 	"path/filepath"
 	"runtime"
 	"runtime/debug"
+	"runtime/pprof"
 	"sort"
 	"strconv"
 	"strings"
@@ -579,6 +580,12 @@ func runDir() string {
 
 // Worker explores one shard and writes its result file.
 func Worker(c *Check, tier string, seed int64, shard, nshards int, poison [][]int, outPath string) {
+	if pf := os.Getenv("VERIF_CPUPROFILE"); pf != "" {
+		if f, err := os.Create(fmt.Sprintf("%s.%d", pf, shard)); err == nil {
+			pprof.StartCPUProfile(f)
+			defer pprof.StopCPUProfile()
+		}
+	}
 	if c.Serial {
 		// a serial check may run its own goroutines
 	} else {
